@@ -51,7 +51,7 @@ def r1_rooted(chk: Check):
     sub = tree.func("core.objects", "ConfigInformation.submit")
     gs = CFG(sub.node)
     rds = ReachingDefs(gs)
-    ok = any(tail(c) == "validate_and_seal" and len(c.args) == 1 and rds.canon(c.args[0], n) == "JobContext(self.job)" for n, c in gs.call_nodes(lambda c: tail(c) == "validate_and_seal"))
+    ok = any(len(c.args) == 1 and rds.canon(c.args[0], n) == "JobContext(self.job)" for n, c in gs.call_nodes(lambda c: dotted(c.func) == "self.seal"))
     chk.require(ok, chk.fkey(sub, "sealed with the job context"), "a submitted task must be sealed with the context of its own job", chk.loc(sub.module, sub.node))
 
 
